@@ -524,10 +524,24 @@ def _t3(ctx: Context) -> None:
             t = strip_sites(T.of(cfg, n, n.exprs[0]))
             if t[0] == "cmp" and t[1] == ("Eq",):
                 l, r = t[2]
-                if r in (("const", success_const), ("glob", SUCCESS)) and l[0] == "call" and l[1][0] == "attr" and l[1][2] == "get" and len(l[2]) == 2 and l[2][1] == r and contains(l[1][1], lambda s: s[0] == "await"):
+                SUCC = (("const", success_const), ("glob", SUCCESS))
+                if r not in SUCC and l in SUCC:
+                    l, r = r, l
+
+                def _alts(x):
+                    return [a for y in x[1] for a in _alts(y)] if x[0] == "phi" else [x]
+
+                def _lookup(x) -> bool:
+                    # the status of the item in the map the write returned: map.get(key, SUCCESS) / map[key]
+                    if x[0] == "call" and x[1][0] == "attr" and x[1][2] == "get" and len(x[2]) == 2 and x[2][1] in SUCC:
+                        return contains(x[1][1], lambda s: s[0] == "await")
+                    return x[0] == "sub" and len(x) == 3 and contains(x[1], lambda s: s[0] == "await")
+
+                al = _alts(l)
+                if r in SUCC and any(_lookup(x) for x in al) and all(_lookup(x) or x in SUCC for x in al):
                     gate_ok += cfg.out_edges(n, ("T",))
-            if t[0] == "cmp" and t[1] == ("NotIn",) and contains(t[2][1], lambda s: s[0] == "await"):
-                gate_ok += cfg.out_edges(n, ("T",))
+            if t[0] == "cmp" and t[1] in (("NotIn",), ("In",)) and contains(t[2][1], lambda s: s[0] == "await"):
+                gate_ok += cfg.out_edges(n, ("T",) if t[1] == ("NotIn",) else ("F",))
     for n in ins:
         ctx.must_pass("C13.T3", cfg, n, "key absent from the error map", gate_ok, desc="CoAP: a listener update only for items without an error entry")
         ctx.must_pass("C13.T3", cfg, n, "paired_read in char.perms", _perm_gate(ctx, cfg, PR), desc="CoAP: a listener update only for readable characteristics")
@@ -557,31 +571,38 @@ def _g3_listener(ctx: Context, f, cfg, ln) -> None:
     ck = ctx.ck
     T = ctx.terms
     ctx.must_pass("C13.G3", cfg, ln, "paired_read in char.perms", _perm_gate(ctx, cfg, PR), desc="BLE: listeners only for readable characteristics")
-    # only when no failure result was produced for the item: `not result`
-    gate = []
-    resname = None
+    # ---- the failure records of this function: stores `<returned dict>[key] = <dict with a status>`
+    rets = [n for n in cfg.nodes if n.kind == "return" and n.exprs and n.exprs[0] is not None]
+    ret_terms = {strip_sites(T.of(cfg, r, r.exprs[0])) for r in rets}
+    stores = []
     for n in cfg.nodes:
-        if n.kind == "test" and isinstance(n.exprs[0], ast.Name):
-            # a local that is {} and only assigned a dict with a status on the failure branch
-            nm = n.exprs[0].id
-            defs = [m for m in cfg.nodes if m.kind == "stmt" and isinstance(m.ast, ast.Assign) and _u(m.ast.targets[0]) == nm]
-            if defs and all(isinstance(m.ast.value, ast.Dict) for m in defs) and any(not m.ast.value.keys for m in defs):
-                gate += cfg.out_edges(n, ("F",))
-                resname = nm
-    ctx.must_pass("C13.G3", cfg, ln, "`not result` (no failure recorded for the item)", gate, desc="BLE: listeners only when the item produced no failure result")
-    # after a write request on every path from the loop head
+        if n.kind == "stmt" and type(n.ast) is ast.Assign and len(n.ast.targets) == 1 and isinstance(n.ast.targets[0], ast.Subscript):
+            if strip_sites(T.of(cfg, n, n.ast.targets[0].value)) in ret_terms:
+                stores.append(n)
+    store_ids = {n.id for n in stores}
     heads = [n for n in cfg.nodes if n.kind == "for"]
+    if len(heads) != 1:
+        ck.unknown("C13.G3", f"BLE put_characteristics: expected one loop over the items, found {len(heads)}", f.loc())
+        return
+    h = heads[0]
+    body_in = [d for d, l, _e in h.succ if l == "T"]
     writes = [n for n, c in ctx.nodes_calling_name(cfg, "_async_request_under_lock")]
     edges = []
     for w in writes:
         edges += ctx.normal_out(cfg, w)
-    # paths through an assignment of a non-empty failure record cannot take the `not result` outcome (the only
-    # definitions of that local are the empty dict and non-empty literals): they are excluded as infeasible
-    poison = [m.id for m in cfg.nodes if m.kind == "stmt" and isinstance(m.ast, ast.Assign) and resname and _u(m.ast.targets[0]) == resname
-              and isinstance(m.ast.value, ast.Dict) and m.ast.value.keys]
-    for h in heads:
-        ctx.must_pass("C13.G3", cfg, ln, "a write request that returned normally", edges, start=h.id,
-                      desc="BLE: listeners are notified only after the write request(s) of the item returned", avoid_nodes=poison)
+    # listeners only when the item produced no failure record: no path of one iteration passes a failure store and then the
+    # listener call (a flag such as `result = {}` ... `if not result` is resolved by the graph: engine/cfg flag threading)
+    bad = None
+    for s_ in stores:
+        p1 = cfg.find_path(body_in[0], s_.id, avoid_nodes={h.id}) if body_in else None
+        p2 = cfg.find_path(s_.id, ln.id, avoid_nodes={h.id}) if p1 is not None else None
+        if p1 is not None and p2 is not None:
+            bad = p1 + p2
+    ck.check("C13.G3", bad is None, "BLE: listeners only when the item produced no failure result", f"{ctx.fkey(f)}:listener-after-failure",
+             "BLE put_characteristics notifies listeners of a value for an item it also reports as failed", ctx.loc(f, ln), cfg.render_path(bad) if bad else None)
+    # after a write request on every path from the loop head
+    ctx.must_pass("C13.G3", cfg, ln, "a write request that returned normally", edges, start=h.id,
+                  desc="BLE: listeners are notified only after the write request(s) of the item returned")
     ck.require_min("C13.G3", "BLE write request sites", len(writes), 3)
     # writes are under the permission tests
     for w in writes:
@@ -590,26 +611,35 @@ def _g3_listener(ctx: Context, f, cfg, ln) -> None:
     # no handler swallows a failed write
     hs = [n for n in cfg.nodes if n.kind == "handler"]
     swallow = []
-    for h in hs:
-        if cfg.exit.id in cfg.reachable_from(h.id) or any(cfg.nodes[x].kind == "for" for x in cfg.reachable_from(h.id)):
-            swallow.append(h)
+    for hd in hs:
+        if cfg.exit.id in cfg.reachable_from(hd.id) or any(cfg.nodes[x].kind == "for" for x in cfg.reachable_from(hd.id)):
+            swallow.append(hd)
     ck.check("C13.G3", not swallow, "BLE: no handler in put_characteristics swallows a failed write", f"{ctx.fkey(f)}:swallowing-handler",
              f"BLE put_characteristics: handler `{swallow[0].text() if swallow else ''}` lets a failed write continue as if written", ctx.loc(f, swallow[0] if swallow else ln))
-    # read-only branch reports CANT_WRITE_READ_ONLY
-    ro = False
+    # an item that is not written (neither write permission) gets the record CANT_WRITE_READ_ONLY: every way through one
+    # iteration passes a write request that returned, or a store of that record - or leaves by an exception
     cant = ctx.prog.const_of("aiohomekit.protocol.statuscodes.HapStatusCode.CANT_WRITE_READ_ONLY")
-    for n in cfg.nodes:
-        if n.kind == "stmt" and isinstance(n.ast, ast.Assign) and isinstance(n.ast.value, ast.Dict) and _u(n.ast.targets[0]) == resname:
-            d = {ctx.const(f, k, None): strip_sites(T.of(cfg, n, v)) for k, v in zip(n.ast.value.keys, n.ast.value.values) if k is not None}
-            if d.get("status") in (("const", cant), ("glob", "aiohomekit.protocol.statuscodes.HapStatusCode.CANT_WRITE_READ_ONLY")):
-                ro = True
-    ck.check("C13.G3", ro, "BLE: a characteristic that is not writable is reported as CANT_WRITE_READ_ONLY", f"{ctx.fkey(f)}:read-only",
+    CANT = (("const", cant), ("glob", "aiohomekit.protocol.statuscodes.HapStatusCode.CANT_WRITE_READ_ONLY"))
+
+    def _alts(t):
+        return [a for x in t[1] for a in _alts(x)] if t[0] == "phi" else [t]
+
+    ro_stores = []
+    for s_ in stores:
+        vals = _alts(strip_sites(T.of(cfg, s_, s_.ast.value)))
+        if vals and all(v[0] == "dict" and dict((k[1], x) for k, x in v[1] if k[0] == "const").get("status") in CANT for v in vals):
+            ro_stores.append(s_)
+    ck.check("C13.G3", bool(ro_stores), "BLE: a characteristic that is not writable is reported as CANT_WRITE_READ_ONLY", f"{ctx.fkey(f)}:read-only",
              "BLE put_characteristics no longer reports read-only characteristics with CANT_WRITE_READ_ONLY", f.loc())
+    if ro_stores and body_in:
+        p = cfg.find_path(body_in[0], {h.id, cfg.exit.id}, avoid_edges=edges, avoid_nodes={x.id for x in ro_stores})
+        ck.check("C13.G3", p is None, "BLE: every item is either written or reported as CANT_WRITE_READ_ONLY", f"{ctx.fkey(f)}:silently-skipped",
+                 "BLE put_characteristics can pass over an item without writing it and without a failure record: the caller takes it as written", ctx.loc(f, h),
+                 cfg.render_path(p) if p else None)
     # failures are returned under the item's key
-    st = [n for n in cfg.nodes if n.kind == "stmt" and isinstance(n.ast, ast.Assign) and isinstance(n.ast.targets[0], ast.Subscript) and _u(n.ast.value) == (resname or "")]
-    okk = bool(st)
-    for s in st:
-        key = strip_sites(T.of(cfg, s, s.ast.targets[0].slice))
+    okk = bool(stores)
+    for s_ in stores:
+        key = strip_sites(T.of(cfg, s_, s_.ast.targets[0].slice))
         okk &= key[0] == "tuple" and len(key[1]) == 2 and all(k[0] == "sub" and k[1][0] == "iter" and k[2] == ("const", i) for i, k in enumerate(key[1]))
     ck.check("C13.G3", okk, "BLE: a failure is returned under the item's own (aid, iid)", f"{ctx.fkey(f)}:failure-key",
              "BLE put_characteristics does not return failures under the item's own key", f.loc())
